@@ -1292,3 +1292,7 @@ mod test_utils {
         }
     }
 }
+
+// Verification hook (inert unless built by `cargo kani`, which sets --cfg kani).
+#[cfg(kani)]
+mod verif_kani;
